@@ -78,7 +78,7 @@ class ColorVisuals(Visuals):
         except ValueError:
             util.log.warning("unable to convert colors!")
 
-    @caching.cache_decorator
+    @property
     def transparency(self) -> bool:
         """
         Does the current object contain any transparency.
@@ -87,6 +87,12 @@ class ColorVisuals(Visuals):
         ----------
         transparency: bool, does the current visual contain transparency
         """
+        # default colors which were edited in place are user data
+        self._verify_hash()
+        return self._transparency
+
+    @caching.cache_decorator
+    def _transparency(self) -> bool:
         if "vertex_colors" in self._data:
             a_min = self._data["vertex_colors"][:, 3].min()
         elif "face_colors" in self._data:
@@ -133,6 +139,8 @@ class ColorVisuals(Visuals):
         return None
 
     def __hash__(self):
+        # default colors which were edited in place are user data
+        self._verify_hash()
         return self._data.__hash__()
 
     def copy(self) -> "ColorVisuals":
@@ -333,8 +341,11 @@ class ColorVisuals(Visuals):
         if count is not None and colors.shape != (count, 4):
             raise ValueError("face colors incorrect shape!")
 
-        # subclass the array to track for changes using a hash
-        colors = caching.tracked_array(colors)
+        # subclass the array to track for changes using a hash: colors
+        # we already track are handed out as they are since an edit of
+        # a second wrapper of their memory would go unnoticed
+        if not isinstance(colors, caching.TrackedArray):
+            colors = caching.tracked_array(colors)
         # put the generated colors and their initial checksum into cache
         self._cache[key_colors] = colors
         self._cache[key_hash] = hash(colors)
